@@ -17,6 +17,9 @@
 (*   explicitly listed combination consisting of the "empty" operand       *)
 (*   accepts exactly that (the documented "pop" form); the empty operand   *)
 (*   consumes no text and is not available in operand sets                 *)
+(*   key+n (kx+1: an expression that BEGINS with an enumeration key is a     *)
+(*   numeric expression, not a key)   keyjunk (kx lab: a key followed by    *)
+(*   more text is nothing at all)                                          *)
 (*   hexa ($a, a hexadecimal number) chra ('a', a character) - a register  *)
 (*   named a is declared: these are numbers, not register references       *)
 (* An ALTERNATIVE is [id, ty, off, curly]: its identifier (which becomes   *)
@@ -72,8 +75,8 @@ Acc(a, t) ==
       \* a numeric expression: numbers and labels (an enumeration key is, as text, an identifier, i.e. a label);
       \* NEVER a register name, alone or inside the expression
       \* numeric_va: a numeric operand whose value must be a valid address - the flag changes nothing about what text it accepts
-      [] a.ty \in {"numeric", "numeric_va", "numeric16", "address", "numeric_bytecode"} -> t \in {"num", "lab", "key", "hexa", "chra", "bignum"}
-      [] a.ty = "relative_address" -> IF a.curly THEN t = "{n}" ELSE t \in {"num", "lab", "key", "hexa", "chra", "bignum"}
+      [] a.ty \in {"numeric", "numeric_va", "numeric16", "address", "numeric_bytecode"} -> t \in {"num", "lab", "key", "hexa", "chra", "bignum", "key+n"}
+      [] a.ty = "relative_address" -> IF a.curly THEN t = "{n}" ELSE t \in {"num", "lab", "key", "hexa", "chra", "bignum", "key+n"}
       [] OTHER -> FALSE
 
 \* stable sort of an operand set by rank: position of the alternative tried k-th
